@@ -771,6 +771,36 @@ func (c *checker) objects() {
 			}
 		}
 	}
+	// tree heads at the boundaries of their fields: empty tree, one leaf, sizes with the top bit set, timestamp 0 / max,
+	// root hashes that look special (all zero, the empty-tree hash, all ones). Every one is signed over the fields it carries.
+	for _, kn := range []string{"p256", "rsa2048"} {
+		k := c.by[kn]
+		emptyRoot := sha256.Sum256(nil)
+		for _, size := range []uint64{0, 1, 2, 1 << 63, ^uint64(0)} {
+			for ri, root := range [][]byte{pat(32, 0xa1), make([]byte, 32), emptyRoot[:], bytes.Repeat([]byte{0xff}, 32)} {
+				for _, ts := range []uint64{0, 0x0000018bcfe56801, ^uint64(0)} {
+					size, ri, root, ts := size, ri, root, ts
+					jobs = append(jobs, func() {
+						base := c.baseSTH(k, 4)
+						base.in.TreeSize, base.in.Root, base.in.Timestamp = size, clone(root), ts
+						data, _ := encSTHInput(base.in)
+						base.sig = c.honestSig(k, 4, data)
+						shape := fmt.Sprintf("tree_size %d, root #%d, timestamp %d", size, ri, ts)
+						c.judgeSTH("honest", k, base, "honest object, "+shape)
+						detail := dSparse
+						if ts == 0x0000018bcfe56801 {
+							detail = dFields
+						}
+						for _, mu := range sthMuts(base, detail) {
+							o := base.clone()
+							mu.f(o)
+							c.judgeSTH(mu.family, k, o, mu.name+", "+shape)
+						}
+					})
+				}
+			}
+		}
+	}
 	// entries the verifier must survive: a key that is of no defined type
 	ed := c.by["ed25519"]
 	jobs = append(jobs, func() {
